@@ -364,6 +364,29 @@ func runPartialJoinScenarios(rng *rand.Rand, n int, st *c06Stats, fail func(prop
 		if len(after.values) != len(ents) {
 			fail("C03", "values-complete", "C03:incomplete", fmt.Sprintf("Values() has %d of %d entries after merging a partially loaded log", len(after.values), len(ents)), caseInfo)
 		}
+		// a log opened at an EARLIER head over all the cached entries (its entry map exceeds the closure of
+		// its heads): a fresh replica that merges it gets exactly the closure of that head
+		chain := writer.Values().Slice()
+		cut := rng.Intn(len(chain))
+		older, err := ipfslog.NewLog(w.api, w.idents["C"], &ipfslog.LogOptions{ID: "L", Entries: writer.GetEntries(), Heads: []iface.IPFSLogEntry{chain[cut]}})
+		if err != nil {
+			panic(err)
+		}
+		fresh, _ := ipfslog.NewLog(w.api, w.idents["D"], &ipfslog.LogOptions{ID: "L"})
+		st.aliasRuns++
+		info2 := map[string]interface{}{"scenario": "fresh replica merges a log opened at an earlier head", "writer_entries": k, "head_index": cut, "seed_iteration": it}
+		if _, err := fresh.Join(older, -1); err != nil {
+			fail("C06", "honest-join", "C06:partial-log-join-fails", err.Error(), info2)
+			continue
+		}
+		fents := fresh.GetEntries().Slice()
+		if want := unreferenced(fents); !eqStrings(sortedCopy(hashesOf(fresh.Heads().Slice())), want) {
+			fail("C02", "heads-exact", "C02:heads-not-unreferenced", "heads are not the unreferenced entries after merging a log opened at an earlier head", info2)
+		}
+		if got := fresh.Values().Len(); got != len(fents) || got != cut+1 {
+			fail("C03", "values-complete", "C03:incomplete", fmt.Sprintf("fresh replica: %d entries, %d values, the closure of the head has %d", len(fents), got, cut+1), info2)
+			fail("C01", "converges", "C01:diverged", fmt.Sprintf("a fresh replica that merged a log opened at entry %d of a chain exposes %d values (holds %d entries) instead of %d", cut, got, len(fents), cut+1), info2)
+		}
 	}
 }
 
